@@ -4,6 +4,7 @@ import TaskModel.Sched.ProgressLemmas
 import TaskModel.Sched.DeadlockLemmas
 import TaskModel.Sched.TermInv
 import TaskModel.Sched.LiveMain
+import TaskModel.Sched.LiveFinal
 import TaskModel.Gen.Codes
 /-!
 # C07 — Bounded concurrency, no deadlock, guaranteed termination
@@ -192,6 +193,21 @@ theorem C07_no_deadlock (P : Program) (F : Flags) (n : Nat) (tr : List Label) (c
   obtain ⟨a, x, hx, hnd⟩ := hlive
   exact no_deadlock P F rank hr n tr c hcap hk h a x hx hnd
 
+/-- **C07 (the invocation stops only when all required work is done).** Under the
+hypotheses of `C07_no_deadlock`, a reachable configuration in which no label is accepted is
+final: every activation has returned, every slot has been given back, and every call given
+to `Run` has been executed — unless `Run` is sequential and an earlier call failed, which
+is when `Run` returns that error at once. -/
+theorem C07_completes (P : Program) (F : Flags) (n : Nat) (tr : List Label) (c : Config)
+    (hac : Acyclic P) (hcap : F.cap ≠ some 0) (hk : KeysByTask tr) (h : replay P F (init n) tr = some c)
+    (hq : ∀ l, step P F c l = none) :
+    (∀ a x, c.act? a = some x → x.phase = .done) ∧ c.tokens = 0 ∧
+    (∀ k, k < n → (c.tops.lookup k).isSome = true ∨
+      (F.parallel = false ∧ ∃ k' id r, k' < k ∧ c.tops.lookup k' = some id ∧ kidDone c id = some r ∧
+        r.isOk = false)) := by
+  obtain ⟨rank, hr⟩ := hac
+  exact quiescent_final P F rank hr n tr c hcap hk h hq
+
 /-- **C07 (termination).** For every acyclic program, all flags and every number of calls
 given to `Run` there is a bound on the length of ALL accepted traces: no interleaving runs
 forever.  (The bound is `n * topCost`: each call costs at most the sum over its activation
@@ -341,9 +357,22 @@ theorem fan_acyclic : Acyclic fan := by
   | 2 => simp [fan] at h; subst h; simp
   | t + 3 => simp [fan] at h
 
+/-- a decidable sufficient condition for `KeysByTask`: every dedup event is by an activation of task `t0` -/
+theorem keysByTask_of_const (tr : List Label) (t0 : Nat)
+    (h : tr.all (fun l => match l.ev with
+      | .register _ | .waiter _ => (match enterOf l.act tr with | some (_, t) => t == t0 | none => true)
+      | _ => true) = true) : KeysByTask tr := by
+  refine ⟨fun _ => t0, ?_⟩
+  intro l hl k hk kind t he
+  have := List.all_eq_true.mp h l hl
+  rcases hk with e | e <;> rw [e] at this <;> simp only [he] at this <;> exact (beq_iff_eq.mp this).symm
+
 -- the run is accepted; one slot in use, held by the activation inside its shell command
 example : ((replay fan one (init 1) fanRun).map (fun c => (c.tokens, holders c (actIds fanRun), shells c (actIds fanRun))))
     = some (1, 1, 1) := by decide
+-- the hypotheses of `C07_no_deadlock` / `C07_completes` are met by this run
+example : Acyclic fan ∧ one.cap ≠ some 0 ∧ KeysByTask fanRun :=
+  ⟨fan_acyclic, by decide, keysByTask_of_const fanRun 0 (by decide)⟩
 -- the second dependency cannot take a slot while the first one runs its command …
 example : (replay fan one (init 1) (fanRun ++ [⟨3, .acquire⟩])).isNone = true := by decide
 -- … the raw monitor rejects such a log, and accepts the real one
@@ -353,6 +382,35 @@ example : boundOk 1 fanRun 0 = true := by decide
 example : (replay fan { cap := some 2 } (init 1) (fanRun ++ [⟨3, .acquire⟩])).isSome = true := by decide
 -- a command started without a slot is rejected by `holdMon`
 example : (holdMon.run holdMon.init [.enter (.top 0) 0, .cmdStart 0 none false]).isNone = true := by decide
+
+/-- two dependencies on the same `run: once` task: one executes, the other waits for it -/
+private def shared : Program := [{ deps := [1, 1] }, { run := .once, cmds := [.shell 0 false false] }]
+private def two : Flags := { cap := some 2 }
+
+private def sharedRun : List Label :=
+  [⟨1, .enter (.top 0) 0⟩, ⟨1, .acquire⟩, ⟨1, .depsRelease⟩, ⟨2, .enter (.dep 1 0) 1⟩, ⟨3, .enter (.dep 1 1) 1⟩,
+   ⟨2, .acquire⟩, ⟨2, .register 7⟩, ⟨3, .acquire⟩, ⟨3, .waiter 7⟩, ⟨3, .wRelease⟩,
+   ⟨2, .depsRelease⟩, ⟨2, .depsReacq⟩, ⟨2, .depsDone .ok⟩, ⟨2, .guardsPassed⟩,
+   ⟨2, .cmdStart 0 none false⟩, ⟨2, .cmdEnd 0 .ok⟩, ⟨2, .execDone⟩, ⟨3, .wWake⟩, ⟨3, .wReacq⟩,
+   ⟨2, .release⟩, ⟨2, .exit⟩, ⟨3, .release⟩, ⟨3, .exit⟩,
+   ⟨1, .depsReacq⟩, ⟨1, .depsDone .ok⟩, ⟨1, .guardsPassed⟩, ⟨1, .release⟩, ⟨1, .exit⟩]
+
+theorem shared_acyclic : Acyclic shared := by
+  refine ⟨fun t => if t = 0 then 1 else 0, ?_⟩
+  intro t d h
+  match t with
+  | 0 => simp [shared] at h; subst h; simp
+  | 1 => simp [shared] at h; subst h; simp
+  | t + 2 => simp [shared] at h
+
+-- a complete run with a deduplicated task: accepted, meets the hypotheses of `C07_no_deadlock` /
+-- `C07_completes`, ends in a configuration that accepts no label (`deadlocked_sound`), all slots free
+example : Acyclic shared ∧ two.cap ≠ some 0 ∧ KeysByTask sharedRun :=
+  ⟨shared_acyclic, by decide, keysByTask_of_const sharedRun 1 (by decide)⟩
+example : ((replay shared two (init 1) sharedRun).map (fun c => (deadlocked c, c.tokens, boundOk 2 sharedRun 0)))
+    = some (true, 0, true) := by decide
+-- half-way through, the waiter is blocked (`wWake` rejected) but the execution can move
+example : (replay shared two (init 1) (sharedRun.take 10 ++ [⟨3, .wWake⟩])).isNone = true := by decide
 
 /-- a task that depends on itself; limit 3 instead of 1000 -/
 private def selfDep : Program := [{ deps := [0] }]
